@@ -869,7 +869,7 @@ func (ex *Exec) applyContract(st *State, c *ssa.Call, con0 *Contract, bindings [
 			if ls.Region {
 				ok := false
 				for _, mine := range ex.assign {
-					if mine.Fam == ls.Fam && mine.Region {
+					if mine.Fam == ls.Fam && mine.Region && (mine.ArrType == 0 || mine.ArrType == ls.ArrType) {
 						ok = true
 					}
 				}
@@ -917,7 +917,12 @@ func (ex *Exec) applyContract(st *State, c *ssa.Call, con0 *Contract, bindings [
 				var cs []Term
 				for _, ls := range lss {
 					if ls.Region {
-						cs = append(cs, tTrue)
+						if ls.ArrType != 0 && isElem {
+							st.declArrType()
+							cs = append(cs, eq(app(SInt, "arr.type", p[0]), intLit(int64(ls.ArrType))))
+						} else {
+							cs = append(cs, tTrue)
+						}
 						continue
 					}
 					g := tTrue
@@ -1234,11 +1239,16 @@ func (ex *Exec) checkRefinement(st *State, outer *Env, kc0 *Contract, fval ssa.V
 	}
 	kcs := ex.prog.expandContract(kc0)
 	// footprint: a closure may assign nothing, or -- when the callee contract allows captures(self) -- its own captured variables
-	allowsCaptures := false
+	allowsCaptures, allowsRegion := false, false
 	for _, kc := range kcs {
 		for _, cl := range kc.Assigns {
-			if strings.HasPrefix(strings.TrimSpace(cl.Text), "captures(") {
-				allowsCaptures = true
+			for _, item := range splitList(cl.Text) {
+				if strings.HasPrefix(strings.TrimSpace(item), "captures(") {
+					allowsCaptures = true
+				}
+				if strings.HasPrefix(strings.TrimSpace(item), "fields[") {
+					allowsRegion = true
+				}
 			}
 		}
 	}
@@ -1253,6 +1263,9 @@ func (ex *Exec) checkRefinement(st *State, outer *Env, kc0 *Contract, fval ssa.V
 				if b.Name == item {
 					isCap = true
 				}
+			}
+			if strings.HasPrefix(item, "fields[") && allowsRegion {
+				continue // a type-level footprint the callee contract grants as well
 			}
 			if !(isCap && allowsCaptures) {
 				ex.abort("refinement of %s by %s: the function assigns %s, which the callee contract does not allow", kc0.Target, fc.Name, item)
@@ -1343,6 +1356,9 @@ func (ex *Exec) checkRefinement(st *State, outer *Env, kc0 *Contract, fval ssa.V
 	}
 	for ki, kc := range kcs {
 		for _, cl := range kc.Ensures {
+			if strings.HasPrefix(cl.Label, "ghost") {
+				continue // clauses that define ghost state in terms of the call itself (traces): nothing for real code to establish
+			}
 			kpost = append(kpost, kes[ki].eval(cl.Expr))
 		}
 	}
@@ -1485,6 +1501,11 @@ func (ex *Exec) closureRequiresAtMake(st *State, mc *ssa.MakeClosure) {
 			k++
 			name := fmt.Sprintf("closure@make#%d:%s/#%d", ord, strings.TrimPrefix(fc.Name, ex.con.Name), k)
 			st.check(name, "pre", fe.eval(c), "captured variables satisfy what "+fc.Name+" requires of them: "+cl.Text, cl.Props, mc.Pos())
+		}
+	}
+	for _, cl := range fc.Ensures {
+		if cl.Label == "inv" {
+			st.check(fmt.Sprintf("closure@make#%d:%s/inv", ord, strings.TrimPrefix(fc.Name, ex.con.Name)), "pre", fe.eval(cl.Expr), "the closure's invariant on its captured variables holds when it is made: "+cl.Text, cl.Props, mc.Pos())
 		}
 	}
 	if needsCaller {
